@@ -65,6 +65,7 @@ type Task struct {
 	parkKind  int
 	parkSite  string
 	lockDepth int
+	parkedAt  int           // scheduler step at which the task last parked (fairness)
 	held      [16]tryLocker // simulated locks the task holds (most recent last)
 	nHeld     int
 	lockEpoch uint64 // unlock epoch seen at the last failed TryLock
@@ -278,6 +279,9 @@ func Current() *Sim { return cur }
 
 const traceCap = 1 << 17
 
+// fairnessSteps bounds how long a ready task can be passed over (see the scheduler loop).
+const fairnessSteps = 2500
+
 var gTrTime []int64 // per step: fake time since the start of the run
 
 // task tables are process-global and reused (one run at a time): allocation-free spawning
@@ -480,6 +484,7 @@ func (s *Sim) noteEnd() { s.simTime = time.Since(s.start) }
 //go:norace
 func (s *Sim) spawn(site string, harness bool, fn func()) *Task {
 	tk := &Task{ID: len(s.tasks), Site: site, Harness: harness, gate: make(chan struct{}), started: make(chan struct{})}
+	tk.parkedAt = s.steps
 	tk.Class = site
 	if s.cfg.Classify != nil {
 		tk.Class = s.cfg.Classify(site)
@@ -687,7 +692,20 @@ func (s *Sim) loop() {
 			}
 			continue
 		}
-		pick := s.choose(ready[:n])
+		// Fairness: no real scheduler leaves a runnable thread waiting for ever, and the liveness rules of
+		// the checks ("returns within 20 s") presuppose that. The priority-based policies have no fairness
+		// of their own, so a task that has been ready for fairnessSteps consecutive steps runs now.
+		pick := -1
+		for i := 0; i < n; i++ {
+			if s.steps-ready[i].parkedAt > fairnessSteps && (pick < 0 || ready[i].parkedAt < ready[pick].parkedAt) {
+				pick = i
+			}
+		}
+		if pick >= 0 {
+			s.noteSwitch(ready[pick])
+		} else {
+			pick = s.choose(ready[:n])
+		}
 		tk := ready[pick]
 		if s.nTr < traceCap {
 			h := uint64(0)
@@ -837,6 +855,7 @@ func (s *Sim) record(tk *Task) {
 func (s *Sim) park(tk *Task, kind int, site string) {
 	tk.parkKind = kind
 	tk.parkSite = site
+	tk.parkedAt = s.steps
 	tk.state = stParked
 	select {
 	case s.wake <- struct{}{}:
